@@ -27,6 +27,23 @@ def enc_tree(tree, pre=""):
     return out
 
 
+def enc_tree_order(tree, key, pre=""):
+    """Like enc_tree with another order of the siblings (key: (name, kind) -> sort key): the model's result may depend on the order in which
+    a directory's entries are visited only in exotic cases (links on the way that lead back into the tree being removed)."""
+    out = []
+    for name in sorted(tree, key=lambda s: key(s, tree[s][0])):
+        kind, val = tree[name]
+        p = pre + "/" + name if pre else name
+        if kind == "d":
+            out.append("d:" + hx(p.encode()))
+            out += enc_tree_order(val, key, p)
+        elif kind == "f":
+            out.append("f:%s:%d" % (hx(p.encode()), val))
+        else:
+            out.append("l:%s:%s" % (hx(p.encode()), hx(val.encode())))
+    return out
+
+
 def tree_str(tree):
     l = enc_tree(tree)
     return ",".join(l) if l else "."
@@ -268,7 +285,7 @@ def run_fs(chk, drv=None, model=None):
             cases += [(t, p) for p in ps[:14]]
         cases = cases[:max(target, len(fixed_cases()))]
         mdl = vlib.Interactive(mbin)
-        nplain = nlinkway = nok = 0
+        nplain = nlinkway = nok = norder = 0
         shapes = set()
         dis = []
         for (t, p) in cases:
@@ -301,12 +318,21 @@ def run_fs(chk, drv=None, model=None):
                 rp["oracle"] = "before/after dumps compared by the harness (lexical for plain paths, harness-side resolution otherwise)"
                 chk.violation(bad[0], bad[1], rp, found_input=True, broken="c14 file-system oracle on LocalFileSystem::remove")
             if m != a + " " + status:
+                # is the MODEL's answer for this case independent of the order in which directory entries are visited? (the property does
+                # not fix that order; a different but equally valid traversal must not count as a disagreement)
+                alts = [",".join(enc_tree_order(t, k)) or "." for k in (lambda n, kd: n.encode(), lambda n, kd: tuple(-x for x in n.encode()) + (256,),
+                                                                        lambda n, kd: (kd == "d", n.encode()), lambda n, kd: (kd != "d", n.encode()))]
+                answers = set(mdl.ask("fsrm %s %s" % (o, hx(p.encode()))) for o in alts) | {m}
+                if len(answers) > 1 and (a + " " + status) in answers:
+                    norder += 1
+                    continue
                 dis.append((bad is not None, len(ts) + len(p), rp))
         chk.cov["fsrm_cases"] = len(cases)
         chk.cov["fsrm_plain_paths"] = nplain
         chk.cov["fsrm_paths_through_links_or_dots"] = nlinkway
         chk.cov["fsrm_successful_removals"] = nok
         chk.cov["fsrm_shapes"] = len(shapes)
+        chk.cov["fsrm_traversal_order_dependent_cases_matching_another_order"] = norder
         if dis:
             chk.cov["fsrm_disagreements"] = len(dis)
             unexplained = [x for x in dis if not x[0]]
